@@ -223,10 +223,18 @@ inline void Exec::cal_param_query(int ki) {
             else if (q.fv.front() > 2e6) { f = q.fv.front() * 0.5; ex = XP_FAIL; why = "frequency-out-of-range"; }
             else f = q.fv[0];
         } else if (q.kind != ParamRec::SCALAR) {
-            // "returns the most recent value computed by vnacal_new_solve(), or fails if the parameter has not been solved"
-            bool solved = false;
-            for (auto &n : K.news) if (n->ever_solved && n->registered.count(pi)) solved = true;
-            ex = XP_EITHER; why = solved ? "solved-unknown" : "maybe-unsolved-unknown";
+            // "returns the most recent value computed by vnacal_new_solve(), or fails if the parameter has not been solved":
+            // the range that answers is the one of the LAST successful solve that used the parameter
+            if (!q.solved) { ex = XP_FAIL; why = "unsolved-unknown"; }
+            else if (q.solved_grid.empty()) { ex = XP_EITHER; why = "solved-unknown"; }
+            else {
+                const std::vector<double> &g = q.solved_grid;
+                int how = c.weighted({4, 2, 1});
+                if (how == 0) { f = g[c.draw(g.size())]; ex = XP_MUST; why = "solved-unknown:inside-last-range"; }
+                else if (how == 1) { f = g.back() * 1.5 + 1e6; ex = XP_FAIL; why = "solved-unknown:outside-last-range"; }
+                else if (g.front() > 2e6) { f = g.front() * 0.5; ex = XP_FAIL; why = "solved-unknown:outside-last-range"; }
+                else { f = g.front(); ex = XP_MUST; why = "solved-unknown:inside-last-range"; }
+            }
         }
     }
     c.note("vnacal_get_parameter_value(k%d, %d, %g)%s", ki, h, f, ex == XP_FAIL ? "  [invalid]" : "");
